@@ -121,3 +121,12 @@ def seq_slice(xs, lo, hi):
 def same_map(a, b):
     """equal mappings INCLUDING insertion order (python's == on dicts ignores the order)"""
     return list(a.items()) == list(b.items())
+
+
+def empty_map(key_kind, val_kind):
+    """an empty dict whose (symbolic) kind is Map(key_kind, val_kind); kinds by name: 'Str', 'Int', 'Bool', 'Dyn', 'Val'"""
+    return {}
+
+
+def empty_seq(elem_kind):
+    return []
